@@ -16,33 +16,43 @@ from specs.C13 import cap10, harness_buf
 PROP = 'C14'
 
 
-def pow10_sel(j, w, nd):
-    e = wconst(10 ** (nd - 1), w)
+def pow10_sel(j, w, nd, base=10):
+    e = wconst(base ** (nd - 1), w)
     for q in range(nd - 2, -1, -1):
-        e = '(%s == %d ? %s : %s)' % (j, q, wconst(10 ** q, w), e)
+        e = '(%s == %d ? %s : %s)' % (j, q, wconst(base ** q, w), e)
     return e
 
 
-def digits_contract(t):
+def ndigits(n, base):
+    k = 1
+    while n >= base:
+        n //= base
+        k += 1
+    return k
+
+
+def digits_contract(t, base=10):
     w = t.bits + 8
-    nd = len(str(max(abs(t.min), t.max)))
+    nd = ndigits(max(abs(t.min), t.max), base)
     v = wval('(*a2)', t, w)
     a = '(%s < 0 ? -%s : %s)' % (v, v, v)
-    L = '(' + ' + '.join(['1'] + ['(%s >= %s ? 1 : 0)' % (a, wconst(10 ** q, w)) for q in range(1, nd)]) + ')'
+    L = '(' + ' + '.join(['1'] + ['(%s >= %s ? 1 : 0)' % (a, wconst(base ** q, w)) for q in range(1, nd)]) + ')'
     s = '(%s < 0 ? 1 : 0)' % v
     ptr, ec = '__CPROVER_return_value.f0', '__CPROVER_return_value.f1'
     off = lambda p: '__CPROVER_POINTER_OFFSET(%s)' % p
     n = '((uint64_t)(%s - %s))' % (off('a1'), off('a0'))
     j = '((%s)(%s - 1 - (int)vp_k))' % (W(w), L)
-    digit = '((%s / %s) %% 10)' % (a, pow10_sel(j, w, nd))
+    digit = '((%s / %s) %% %d)' % (a, pow10_sel(j, w, nd, base), base)
+    # the character of a digit: '0'..'9', then 'a'.. (lower case, as std::to_chars)
+    ch = ('48 + %s' % digit) if base <= 10 else '(%s < 10 ? 48 + %s : 87 + %s)' % (digit, digit, digit)
     return Contract(
-        requires=['__CPROVER_same_object(a0, a1)', '%s <= %s' % (off('a0'), off('a1')), 'a3 == 10', '%s >= %d' % (n, nd + 1)],
+        requires=['__CPROVER_same_object(a0, a1)', '%s <= %s' % (off('a0'), off('a1')), 'a3 == %d' % base, '%s >= %d' % (n, nd + 1)],
         assigns=['__CPROVER_object_upto(a0, %s)' % n],
         ensures=['%s == 0' % ec,
                  '(int64_t)(%s - %s) == (int64_t)(%s + %s)' % (off(ptr), off('a0'), s, L),
                  '(%s != 0) == (a0[0] == 45)' % s,
-                 '((int)vp_k < %s) ==> ((%s)a0[%s + (int)vp_k] == 48 + %s)' % (L, W(w), s, digit)],
-        note='canonical decimal numeral of exactly the value')
+                 '((int)vp_k < %s) ==> ((%s)a0[%s + (int)vp_k] == %s)' % (L, W(w), s, ch)],
+        note='canonical base-%d numeral of exactly the value' % base)
 
 
 def plan(tier):
@@ -50,21 +60,27 @@ def plan(tier):
     src = [KERNEL_HEAD]
     jobs = []
     kname = 'C14'
-    for ts in ['i8', 'u8', 'i16', 'u16'] + (['i32', 'u32'] if thorough else []):
+    src.append('#include <cstring>\nstatic int vp_ref_numeral(long long v, int base, char* out) { char tmp[80]; int n = 0; unsigned long long m = v < 0 ? 0ULL - static_cast<unsigned long long>(v) : static_cast<unsigned long long>(v); '
+               'do { int d = int(m % base); tmp[n++] = char(d < 10 ? 48 + d : 87 + d); m /= base; } while (m); int k = 0; if (v < 0) out[k++] = 45; while (n) out[k++] = tmp[--n]; return k; }\n')
+    plan_ = [(ts, 10) for ts in ['i8', 'u8', 'i16', 'u16'] + (['i32', 'u32'] if thorough else [])]
+    plan_ += [('u8', 16), ('i16', 16)] + ([('i8', 16), ('u16', 16), ('u16', 36), ('i8', 11)] if thorough else [])      # other bases (seed C14_2: digit ten printed as ':')
+    for ts, base in plan_:
         t = T(ts)
         cap = cap10(t)
-        sname = 'vp_text_' + ts
-        # native shim: 1 iff the produced text is exactly the decimal numeral (compared with snprintf)
-        src.append('#include <cstdio>\n#include <cstring>\nextern "C" int %s(std::uint64_t n, %s v) { char buf[48]; char ref[48]; auto r = cnl::to_chars(buf, buf + n, v); '
-                   'int m = std::snprintf(ref, sizeof ref, "%%lld", static_cast<long long>(v)); '
-                   'return r.ec == std::errc{} && (r.ptr - buf) == m && std::memcmp(buf, ref, m) == 0; }\n' % (sname, cxx(ts)))
+        sfx = ts if base == 10 else '%s_b%d' % (ts, base)
+        sname = 'vp_text_' + sfx
+        # native shim: 1 iff the produced text is exactly the numeral in that base (reference: plain digit loop)
+        src.append('extern "C" int %s(std::uint64_t n, %s v) { char buf[48]; char ref[80]; auto r = cnl::to_chars(buf, buf + n, v, %d); '
+                   'int m = vp_ref_numeral(static_cast<long long>(v), %d, ref); '
+                   'return r.ec == std::errc{} && (r.ptr - buf) == m && std::memcmp(buf, ref, m) == 0; }\n' % (sname, cxx(ts), base, base))
         heavy = t.bits >= 32
+        nd = ndigits(max(abs(t.min), t.max), base)
         # the lowest value of 32/64-bit signed types is a known finding of C13 (negation); excluded here by precondition
-        pre = '__CPROVER_assume(vp_in1 >= %d);' % (len(str(max(abs(t.min), t.max))) + 1)
+        pre = '__CPROVER_assume(vp_in1 >= %d);' % (nd + 1)
         if t.signed and t.bits >= 32:
             pre += ' __CPROVER_assume((%s)vp_in2 != %s);' % (t.sctype, '(-2147483647 - 1)' if t.bits == 32 else '(-9223372036854775807LL - 1)')
-        jobs.append(Job('%s.digits.%s' % (PROP, ts), kname, r'^auto cnl::to_chars<%s>\(char\*, char\*, %s const&, int\)$' % (dem(ts), dem(ts)),
-                        digits_contract(t), harness=harness_buf(None, t, cap + 2), harness_pre=pre, prop=PROP, skip_this=False,
+        jobs.append(Job('%s.digits.%s' % (PROP, sfx), kname, r'^auto cnl::to_chars<%s>\(char\*, char\*, %s const&, int\)$' % (dem(ts), dem(ts)),
+                        digits_contract(t, base), harness=harness_buf(None, t, cap + 2, base=base), harness_pre=pre, prop=PROP, skip_this=False,
                         inputs=['vp_in1', 'vp_in2'], shim=sname, shim_types=['u64', ts], oracle=lambda n, v: ('value', 1),
                         unwind=cap + 3, timeout=1800 if heavy else 600, mem_gb=28 if heavy else 12, solvers=('kissat', 'cadical') if heavy else ('minisat',), layer=1))
     k = Kernel(kname, ''.join(src), [], 'integer text')
@@ -73,5 +89,5 @@ def plan(tier):
             'not_applicable_parts': ['scaled_integer text (layout selection fixed/scientific, truncation): needs a decimal parser as a spec function over an input-dependent layout; not built',
                                      '64/128-bit and wide integers: 20+ levels of 64-bit division by 10 against the spec dividers; not claimed',
                                      'to_string / operator<< (std::string, iostreams)', 'the lowest value of int32/int64 (C13 known finding)'],
-            'assumptions': ['base 10']}
+            'assumptions': ['bases 10 and 16 (quick), 11 and 36 added in the thorough tier; other bases not instantiated']}
     return {'kernels': [k], 'jobs': jobs, 'meta': meta}
